@@ -42,7 +42,8 @@ def kaLog (x base : Num) : Except Err Num := do
   else
     let lx ← pyLog x
     let lb ← pyLog base
-    fin (lx / lb)
+    -- `math.log(x, base)` divides the two logarithms: a base that is 1.0 AS A FLOAT (1 + 1/10^20) raises ZeroDivisionError
+    if lb == 0 then .error .divZero else fin (lx / lb)
 
 def eFloat : Float := Float.exp 1.0
 
